@@ -277,6 +277,7 @@ def _c05_run(tier, seed, out, drv):
     s_text.cmake_trace_suite(seed, 150 if q else 4000, out, drv)
     s_text.big_file_suite(seed, 6 if q else 60, out, drv)
     dispatch_collisions('C05', out, drv)
+    s_text.charclass_suite('C05', seed, out, drv, full=not q)
 
 
 def _c05_search(tier, seed, out, drv, dis):
